@@ -29,7 +29,7 @@ def gen_cases(rng, tier, drift):
     for _ in range(n_s):
         cfg = si.gen_cfg(rng)
         L = len(si.batches_ref(cfg))
-        cases.append(dict(kind="sched", cfg=cfg, choices=[rng.randint(0, 5) for _ in range(3 * L + 12)]))
+        cases.append(dict(kind="sched", cfg=cfg, choices=[(100 if rng.random() < 0.12 else rng.randint(0, 5)) for _ in range(3 * L + 12)]))
     for _ in range(n_f):
         cfg = si.gen_cfg(rng, maxW=3)
         cfg["W"] = rng.choice([0, cfg["W"]])
@@ -104,4 +104,4 @@ def model_term(c, r):
 def widen(c, rng):
     if c["kind"] != "sched":
         return []
-    return [dict(c, choices=[rng.randint(0, 5) for _ in range(len(c["choices"]))]) for _ in range(20)]
+    return [dict(c, choices=[(100 if rng.random() < 0.12 else rng.randint(0, 5)) for _ in range(len(c["choices"]))]) for _ in range(20)]
